@@ -228,9 +228,57 @@ var addrProp = vp.Register(vp.Prop[Case]{
 	Kind: "c06.addr", Base: 20000,
 	Gen: func(t *rapid.T) Case {
 		nets := allNets()
-		switch rapid.IntRange(0, 11).Draw(t, "src") {
+		switch rapid.IntRange(0, 13).Draw(t, "src") {
 		case 0:
 			return Case{Addr: gen.Addr().Draw(t, "any")}
+		case 12, 13:
+			// A listed base transcribed wrongly: shifted by a nibble or a
+			// byte, bytes swapped inside a hextet, hextets swapped (the slips
+			// made when a textual prefix is spelled out as a byte literal),
+			// followed by a random or zero tail.
+			n := rapid.SampledFrom(nets).Draw(t, "net")
+			b := n.Addr().As16()
+			switch rapid.IntRange(0, 7).Draw(t, "slip") {
+			case 6, 7: // one hextet padded on the wrong side (db8 -> db80, 64 -> 6400 ...)
+				i := 2 * rapid.IntRange(0, 7).Draw(t, "hextet")
+				h := uint16(b[i])<<8 | uint16(b[i+1])
+				for k := 0; k < 3 && h != 0 && h&0xf000 == 0; k++ {
+					h <<= 4
+					if rapid.Bool().Draw(t, "stop") {
+						break
+					}
+				}
+				b[i], b[i+1] = byte(h>>8), byte(h)
+			case 0: // << 4 bits
+				for i := 0; i < 15; i++ {
+					b[i] = b[i]<<4 | b[i+1]>>4
+				}
+				b[15] <<= 4
+			case 1: // >> 4 bits
+				for i := 15; i > 0; i-- {
+					b[i] = b[i]>>4 | b[i-1]<<4
+				}
+				b[0] >>= 4
+			case 2: // << 8 bits
+				copy(b[:], b[1:])
+				b[15] = 0
+			case 3: // >> 8 bits
+				copy(b[1:], b[:15])
+				b[0] = 0
+			case 4: // bytes swapped inside one hextet
+				i := 2 * rapid.IntRange(0, 7).Draw(t, "hextet")
+				b[i], b[i+1] = b[i+1], b[i]
+			default: // two neighbouring hextets swapped
+				i := 2 * rapid.IntRange(0, 6).Draw(t, "hextet")
+				b[i], b[i+1], b[i+2], b[i+3] = b[i+2], b[i+3], b[i], b[i+1]
+			}
+			if rapid.Bool().Draw(t, "tail") {
+				from := rapid.IntRange(2, 15).Draw(t, "from")
+				for i := from; i < 16; i++ {
+					b[i] = rapid.Byte().Draw(t, "byte")
+				}
+			}
+			return Case{Addr: netip.AddrFrom16(b)}
 		case 10, 11:
 			// Positional splice: every byte comes from one of two listed
 			// bases / well-known byte patterns at the SAME offset (a check that
